@@ -49,6 +49,7 @@ REQUIRED = [
     "order:read-then-cancel",
     "order:cancel-iteration-before",
     "order:cancel-after-wakeup",
+    "order:cancel-right-after-start",
     "cancel_while_buffer_exported",
     "layer:recv",
     "layer:recv_into",
@@ -83,7 +84,10 @@ class _RecvError(Exception):
     pass
 
 
-SLOTS = ["iter-before", "same-before-io", "same-after-io", "wakeup-iter", "none"]
+# "next-iter" / "expired": the request lands right after the receive starts (one iteration later / deadline already passed, like
+# iter_received_packets(timeout=0)): a receive that is served from already buffered data must not have a cancellable step after it
+# took the packet out of the buffer
+SLOTS = ["iter-before", "same-before-io", "same-after-io", "wakeup-iter", "none", "next-iter", "expired"]
 
 
 async def _rounds(loop: vloop.VirtualLoop, rng: random.Random, peer: socket.socket, data: bytes, sizes: list[int], slots: list[str], kind: str, recv_once, on_data, backend) -> None:
@@ -102,6 +106,13 @@ async def _rounds(loop: vloop.VirtualLoop, rng: random.Random, peer: socket.sock
             req = scope.cancel
         elif kind == "task":
             req = task.cancel
+        if slot == "next-iter":
+            loop.before_io(loop.iteration + 1, req) if req else None
+        elif slot == "expired":
+            if kind == "task":
+                loop.call_soon(task.cancel)
+            else:
+                scope = backend.open_cancel_scope(deadline=loop.time())
         if slot == "iter-before":
             loop.before_io(k, req) if req else None
         elif slot == "same-before-io":
@@ -282,6 +293,22 @@ def async_layer(ctx, layer: str, rng: random.Random, sizes: list[int], slots: li
                 for n, slot in zip(sizes, slots):
                     chunk = data[pos : pos + n]
                     pos += n
+                    if slot in ("next-iter", "expired"):
+                        # several packets arrive in one piece; the first is taken with a plain wait, the rest is drained with
+                        # iter_received_packets(timeout=0): packets served from the buffer under an already expired deadline
+                        peer2.send(chunk)
+                        for _ in range(3):
+                            await asyncio.sleep(0)
+                        it = cli.iter_received_packets(timeout=0.5)
+                        try:
+                            pkts.append(await anext(it))
+                        except StopAsyncIteration:
+                            pass
+                        del it
+                        async for v in cli.iter_received_packets(timeout=0):
+                            pkts.append(v)
+                        await asyncio.sleep(1.0)
+                        continue
                     dl = 1.0
                     t_write = {"iter-before": 1.5, "same-before-io": 1.0, "same-after-io": 1.0, "wakeup-iter": 0.5, "none": 0.0}[slot]
                     h = loop.call_later(t_write, lambda chunk=chunk: peer2.send(chunk))
@@ -317,6 +344,8 @@ def async_layer(ctx, layer: str, rng: random.Random, sizes: list[int], slots: li
             ctx.count("order:cancel-iteration-before")
     if "wakeup-iter" in slots:
         ctx.count("order:cancel-after-wakeup")
+    if "next-iter" in slots or "expired" in slots:
+        ctx.count("order:cancel-right-after-start")
     model = sockmon.reduce_stream(data) if layer != "tls" else None
     if state.get("recv_error"):
         # TLS: dropped ciphertext can only surface as a record error; attributable iff deliveries were dropped
